@@ -19,6 +19,7 @@ class TranslateError(Exception):
 
 TOK = re.compile(r"""
    (?P<str>"(?:[^"\\]|\\.)*")
+ | (?P<chr>'(?:[^'\\]|\\.)')
  | (?P<num>\d[\d_]*(?:\.(?!\.)\d*)?(?:[eE][+-]?\d+)?(?:f64|u64|i64|usize)?)
  | (?P<id>[A-Za-z_][A-Za-z0-9_]*(?:::[A-Za-z_][A-Za-z0-9_]*)*)
  | (?P<op>\.\.=|\.\.|=>|<=|>=|==|!=|&&|\|\||\*=|\+=|-=|/=|[-+*/%<>=!&.,;(){}\[\]|:])
@@ -138,10 +139,14 @@ class Parser:
             if self.peek()[1] in ("*=", "+=", "-=", "/=", "="):
                 op = self.next()[1]
                 rhs = self.expr()
-                self.expect(";")
-                if e[0] != "var":
-                    raise TranslateError("assignment to something other than a variable")
-                stmts.append(("assign", e[1], op, rhs))
+                if not self.at("}"):
+                    self.expect(";")
+                if e[0] == "var":
+                    stmts.append(("assign", e[1], op, rhs))
+                elif e[0] in ("index", "field") and key(e) is not None:
+                    stmts.append(("assign", key(e), op, rhs))      # a place such as transform[(index,0)] or self.old
+                else:
+                    raise TranslateError("assignment to something other than a variable or an indexed place")
                 continue
             if self.at(";"):
                 self.next()
@@ -229,6 +234,13 @@ class Parser:
         if kind == "str":
             self.next()
             return ("str", text)
+        if kind == "chr":
+            self.next()
+            return ("chr", text[1:-1])
+        if text == "(" and self.peek(1)[1] == ")":
+            self.next()
+            self.next()
+            return ("unit",)
         if text == "(":
             self.next()
             e = self.expr()
@@ -273,6 +285,16 @@ class Parser:
             arms = []
             while not self.at("}"):
                 pat = self.pattern()
+                if pat[0] == "chr" and self.at("..="):
+                    self.next()
+                    hi = self.pattern()
+                    pat = ("crange", pat[1], hi[1])
+                if self.at("|"):
+                    alts = [pat]
+                    while self.at("|"):
+                        self.next()
+                        alts.append(self.pattern())
+                    pat = ("alt", alts)
                 guard = None
                 if self.at("if"):
                     self.next()
@@ -284,6 +306,28 @@ class Parser:
                 arms.append((pat, guard, body))
             self.expect("}")
             return ("match", scrut, arms)
+        if (kind == "id" and text[:1].isupper() and self.peek(1)[1] == "{" and self.peek(2)[0] == "id"
+                and self.peek(3)[1] in (":", ",")):
+            # a struct literal: Name { field: expr, shorthand, .. }
+            self.next()
+            self.expect("{")
+            fields = []
+            while not self.at("}"):
+                if self.at(".."):
+                    # struct update syntax: the remaining fields come from this value
+                    self.next()
+                    fields.append(("..", self.expr()))
+                    continue
+                fname = self.next()[1]
+                if self.at(":"):
+                    self.next()
+                    fields.append((fname, self.expr()))
+                else:
+                    fields.append((fname, ("var", fname)))
+                if self.at(","):
+                    self.next()
+            self.expect("}")
+            return ("struct", text, fields)
         if kind == "id":
             self.next()
             if self.at("!") and self.peek(1)[1] == "(":
@@ -311,6 +355,8 @@ class Parser:
         while self.at("&") or self.at("mut"):
             self.next()
         kind, text = self.next()
+        if kind == "chr":
+            return ("chr", text[1:-1])
         if text == "Some":
             self.expect("(")
             v = self.next()
@@ -356,6 +402,8 @@ def key(n):
     if k == "var":
         return n[1]
     if k == "num":
+        return n[1]
+    if k == "str":
         return n[1]
     if k == "field":
         r = key(n[1])
@@ -411,6 +459,7 @@ class Ctx:
         self.subst = dict(subst or {})     # canonical source text -> Coq term
         self.calls = dict(calls or {})     # path or "self.method" -> Coq function (applied to the translated arguments)
         self.sq_for_powi2 = sq_for_powi2
+        self.strings = False               # string literals are values (SVG attributes) rather than messages
 
 
 FUNCS = {"f64::min": "nmin", "f64::max": "nmax", "f64::exp": "fexp", "f64::sqrt": "nsqrt", "f64::acos": "facos",
@@ -425,8 +474,16 @@ def emit(n, cx):
     t = n[0]
     if t == "num":
         return number(n[1])
+    if t == "raw":
+        return n[1]
     if t == "str":
+        if getattr(cx, "strings", False):
+            return '%s%%string' % n[1]      # (no escapes are used in the attribute names and values this is for)
         return "tt"               # a message (of expect / panic!): no value
+    if t == "chr":
+        return coq_char(n[1])
+    if t == "unit":
+        return "tt"
     if t == "var":
         if n[1] in CONSTS:
             return CONSTS[n[1]]
@@ -455,6 +512,8 @@ def emit(n, cx):
             return "(%s <=? %s)" % (l, r)
         if op == ">=":
             return "(%s <=? %s)" % (r, l)
+        if op == "==" and (n[2][0] == "chr" or n[3][0] == "chr"):
+            return "(Ascii.eqb %s %s)" % (l, r)
         if op == "==":
             return "(%s =? %s)" % (l, r)
         if op == "&&":
@@ -489,12 +548,35 @@ def emit(n, cx):
             return "(%s %s %s)" % ("map" if name == "map" else "flat_map", f, emit(recv, cx))
         if name == "filter" and len(args) == 1 and args[0][0] == "closure":
             return "(filter %s %s)" % (emit(args[0], cx), emit(recv, cx))
+        if name == "as_svg" and not args and getattr(cx, "strings", False):
+            return "(svg_use NN %s)" % emit(recv, cx)
+        if name == "set" and len(args) == 2 and getattr(cx, "strings", False):
+            return "(svg_set NN %s %s %s)" % (emit(recv, cx), emit(args[0], cx), emit(args[1], cx))
+        if name == "sum" and not args:
+            return "(fold_left (fun acc_ x_ => acc_ + x_) %s n0)" % emit(recv, cx)
+        if name == "tuple_combinations" and not args:
+            # itertools: the pairs (x_i, x_j), i < j, in lexicographic order
+            return "(flat_map (fun xr_ => map (fun y_ => (fst xr_, y_)) (snd xr_)) (tails %s))" % emit(recv, cx)
+        if name == "fold" and len(args) == 2 and args[1][0] == "closure" and args[0][0] == "num" and "." not in args[0][1]:
+            # a count: fold(0, |acc, x| acc + ..) over unsigned integers
+            pats = args[1][1]
+            return "(fold_left (fun %s => %s) %s %s)" % (" ".join(pat_text(q) for q in pats), emit_int(args[1][2], cx), emit(recv, cx), emit_int(args[0], cx))
+        if name == "fold" and len(args) == 2:
+            fk = key(args[1])
+            f = FUNCS.get(fk) or cx.calls.get(fk or "")
+            if f is None:
+                raise TranslateError("fold with an unknown function %s" % fk)
+            return "(fold_left (fun acc_ x_ => %s acc_ x_) %s %s)" % (f, emit(recv, cx), emit(args[0], cx))
+        if name == "any" and len(args) == 1 and args[0][0] == "closure":
+            return "(existsb %s %s)" % (emit(args[0], cx), emit(recv, cx))
         if name == "enumerate" and not args:
             return "(enumerate %s)" % emit(recv, cx)
         if name == "skip" and len(args) == 1:
             return "(skipn %s %s)" % (emit(args[0], cx), emit(recv, cx))
-        if name in ("iter", "into_iter") and not args:
+        if name in ("iter", "into_iter", "collect") and not args:
             return emit(recv, cx)
+        if name == "split_terminator" and len(args) == 1 and args[0][0] == "chr":
+            return "(split_terminator %s %s)" % (coq_char(args[0][1]), emit(recv, cx))
         r = emit(recv, cx)
         a = [emit(x, cx) for x in args]
         if name == "powi":
@@ -526,6 +608,8 @@ def emit(n, cx):
     if t == "field":
         raise TranslateError("unknown field access %s" % k)
     if t == "macro":
+        if n[1] == "vec":
+            return "[%s]" % "; ".join(emit(x, cx) for x in n[2])
         if n[1] == "iproduct" and len(n[2]) == 2:
             # iproduct!(a, b): the first iterator is the outer loop
             return "(flat_map (fun x_ => map (fun y_ => (x_, y_)) %s) %s)" % (emit(n[2][1], cx), emit(n[2][0], cx))
@@ -534,6 +618,25 @@ def emit(n, cx):
         return "(fun %s => %s)" % (" ".join(pat_text(p) for p in n[1]), emit(n[2], cx))
     if t == "tuple":
         return "(%s)" % ", ".join(emit(x, cx) for x in n[1])
+    if t == "struct":
+        spec = cx.calls.get(n[1])
+        if not isinstance(spec, tuple):
+            raise TranslateError("unknown struct %s" % n[1])
+        ctor, order, ignored = spec
+        given = dict(n[2])
+        if ".." in given:
+            # the table says what the base value gives for the fields not written out
+            base = key(given.pop(".."))
+            dflt = cx.subst.get("%s{..%s}" % (n[1], base))
+            if not isinstance(dflt, dict):
+                raise TranslateError("struct %s: unknown base value %s" % (n[1], base))
+            for f, v in dflt.items():
+                given.setdefault(f, ("raw", v))
+        extra = [f for f in given if f not in order and f not in ignored]
+        missing = [f for f in order if f not in given]
+        if extra or missing:
+            raise TranslateError("struct %s: unexpected fields %s, missing fields %s" % (n[1], extra, missing))
+        return "(%s %s)" % (ctor, " ".join(emit(given[f], cx) for f in order))
     if t == "array":
         return "[%s]" % "; ".join(emit(x, cx) for x in n[1])
     if t == "if":
@@ -598,6 +701,16 @@ def emit(n, cx):
                 e2 = "(if %s then %s else %s)" % (emit(arms[1][1], cx), e2, e3)
             return "(match %s with Some %s => %s | None => match %s with Some %s => %s | None => %s end end)" % (
                 emit(scrut[1][0], cx), x, emit(arms[0][2], cx), emit(scrut[1][1], cx), y, e2, e3)
+        if (len(arms) >= 3 and all(p == "some" for p in pats[:-1]) and pats[-1] == "none" and arms[-1][1] is None
+                and arms[-2][1] is None and arms[-2][0][1] == "_" and all(a[1] is not None for a in arms[:-2])):
+            # match o { Some(v) if g1 => e1, .., Some(_) => d, None => e }
+            var = arms[0][0][1]
+            if any(a[0][1] != var for a in arms[:-2]):
+                raise TranslateError("match arms bind different names")
+            body = emit(arms[-2][2], cx)
+            for a in reversed(arms[:-2]):
+                body = "(if %s then %s else %s)" % (emit(a[1], cx), emit(a[2], cx), body)
+            return "(match %s with Some %s => %s | None => %s end)" % (emit(scrut, cx), var, body, emit(arms[-1][2], cx))
         if all(a[1] is None and (a[0][0] == "wild" or (a[0][0] == "bind" and a[0][1] in cx.subst)) for a in arms):
             # match over an enum whose constructors the table names
             return "(match %s with %s end)" % (emit(scrut, cx), " ".join(
@@ -678,8 +791,119 @@ def emit_accum(block, var, cx, top=True):
     return rest(0)
 
 
+def coq_char(c):
+    if c.startswith("\\"):
+        raise TranslateError("escaped character literal")
+    return '"%s"%%char' % c
+
+
+def emit_charstep(m, var, vars_, alias, cx):
+    """`match c { 'x' => {..}, 'a' | 'b' => {..}, '0'..='9' => {..}, ' ' | '+' => (), x => bail!(..) }` over the character
+    `var`, the arms updating the places of `alias` (source place -> variable of `vars_`): Some (the variables after the
+    arm) or None (the arm that bails out), the arms tried in source order"""
+    if m[0] != "match" or m[1] != ("var", var):
+        raise TranslateError("not a match on the character %s" % var)
+    tup = "(%s)" % ", ".join(vars_)
+
+    def cond(p):
+        if p[0] == "chr":
+            return "(Ascii.eqb %s %s)" % (var, coq_char(p[1]))
+        if p[0] == "alt":
+            cs = [cond(q) for q in p[1]]
+            out = cs[-1]
+            for x in reversed(cs[:-1]):
+                out = "(orb %s %s)" % (x, out)
+            return out
+        if p[0] == "crange":
+            return "(andb (Z.leb (char_code %s) (char_code %s)) (Z.leb (char_code %s) (char_code %s)))" % (coq_char(p[1]), var, var, coq_char(p[2]))
+        raise TranslateError("unsupported character pattern %r" % (p,))
+
+    def arm(body):
+        if body == ("unit",):
+            return "(Some %s)" % tup
+        if body[0] == "macro" and body[1] == "bail":
+            return "None"
+        if body[0] != "block" or body[2] is not None:
+            raise TranslateError("a match arm that is not a block of assignments")
+
+        def rest(i):
+            if i == len(body[1]):
+                return "(Some %s)" % tup
+            s = body[1][i]
+            if s[0] == "let":
+                return "(let %s := %s in %s)" % (s[1], emit(s[2], cx), rest(i + 1))
+            if s[0] == "assign" and s[2] == "=":
+                name = alias.get(s[1], s[1])
+                if name not in vars_:
+                    raise TranslateError("assignment to %s, which is not one of the tracked places" % s[1])
+                return "(let %s := %s in %s)" % (name, emit(s[3], cx), rest(i + 1))
+            raise TranslateError("unsupported statement (%s) in a character arm" % s[0])
+        return rest(0)
+
+    arms = m[2]
+    last = arms[-1]
+    if last[0][0] not in ("bind", "wild") or last[1] is not None:
+        raise TranslateError("the last arm must catch every other character")
+    out = arm(last[2])
+    for pat, guard, body in reversed(arms[:-1]):
+        if guard is not None:
+            raise TranslateError("a guard on a character arm")
+        out = "(if %s then %s else %s)" % (cond(pat), arm(body), out)
+    return out
+
+
+def emit_places(block, vars_, alias, setters, cx):
+    """a method body that only writes places: assignments to the places of `alias` (source place -> variable) and calls of
+    the `setters` (method chain -> the variable its argument is stored in): the variables afterwards, as a tuple"""
+    if block[0] != "block":
+        raise TranslateError("not a block")
+    stmts = list(block[1])
+    if block[2] is not None:
+        stmts.append(("effect", block[2]))
+
+    def rest(i):
+        if i == len(stmts):
+            return "(%s)" % ", ".join(vars_)
+        s = stmts[i]
+        if s[0] == "let":
+            return "(let %s := %s in %s)" % (s[1], emit(s[2], cx), rest(i + 1))
+        if s[0] == "assign" and s[2] == "=":
+            name = alias.get(s[1], s[1])
+            if name not in vars_:
+                raise TranslateError("assignment to %s, which is not one of the tracked places" % s[1])
+            return "(let %s := %s in %s)" % (name, emit(s[3], cx), rest(i + 1))
+        if s[0] == "effect" and s[1][0] == "method":
+            names, args = chain(s[1])
+            if names in setters and len(args) == 1:
+                return "(let %s := %s in %s)" % (setters[names], emit(args[0], cx), rest(i + 1))
+            if names in cx.calls:
+                # a call of another translated method of the same object: it returns the places
+                return "(let '(%s) := %s %s in %s)" % (", ".join(vars_), cx.calls[names], " ".join(emit(a, cx) for a in args), rest(i + 1))
+            raise TranslateError("unknown effect %s" % names)
+        raise TranslateError("unsupported statement (%s) in a method that writes places" % s[0])
+    return rest(0)
+
+
+def emit_guardcheck(m, cx):
+    """`match n { x if g1 => bail!(..), x if g2 => bail!(..), _ => () }` over an unsigned count: does it pass?"""
+    if m[0] != "match":
+        raise TranslateError("not a match")
+    arms = m[2]
+    if arms[-1][0][0] != "wild" or arms[-1][1] is not None or arms[-1][2] != ("unit",):
+        raise TranslateError("the last arm must be `_ => ()`")
+    out = "true"
+    for pat, guard, body in reversed(arms[:-1]):
+        if pat[0] != "bind" or guard is None or body[0] != "macro" or body[1] != "bail":
+            raise TranslateError("an arm that is not `x if cond => bail!(..)`")
+        out = "(let %s := %s in if %s then false else %s)" % (pat[1], emit_int(m[1], cx), emit_cond(guard, cx, [pat[1]]), out)
+    return out
+
+
 def emit_int(n, cx):
     """an expression over unsigned integer counters (u64 / usize), as N"""
+    k = key(n)
+    if k is not None and k in cx.subst:
+        return cx.subst[k]
     if n[0] == "num":
         return "%d%%N" % int(n[1].replace("_", "").rstrip("u64size"))
     if n[0] == "var":
@@ -779,6 +1003,10 @@ def emit_push(block, vec, cx):
                 if s[1][2] == "append":
                     return "(let %s := %s ++ %s in %s)" % (vec, vec, arg, rest(i + 1))
                 raise TranslateError("unknown Vec method %s" % s[1][2])
+            if (s[0] == "assign" and s[1] == vec and s[2] == "=" and s[3][0] == "method" and s[3][1] == ("var", vec)
+                    and s[3][2] == "add" and len(s[3][3]) == 1):
+                # builder style: doc = doc.add(element)
+                return "(let %s := %s ++ [%s] in %s)" % (vec, vec, emit(s[3][3][0], cx), rest(i + 1))
             if s[0] == "ifblock":
                 return "(let %s := (if %s then %s else %s) in %s)" % (vec, emit(s[1], cx), seq(s[2], False), vec, rest(i + 1))
             if s[0] == "effect" and s[1][0] == "match":
@@ -808,6 +1036,9 @@ def chain(n):
     if n[0] == "method":
         r, a = chain(n[1])
         return r + "." + n[2], a + list(n[3])
+    if n[0] == "field":
+        r, a = chain(n[1])
+        return r + "." + n[2], a
     raise TranslateError("not a method chain")
 
 
